@@ -40,6 +40,8 @@ def tags_of(beh):
                 ai_lines.add(a["f"])
             if a["who"] == "H" and a["f"] in ai_lines:
                 t.add("human-after-ai:%s" % a["kind"])
+            if a["kind"] == "burst":
+                t.add("burst%d" % (len(a["c"]) % 4))
             if a["kind"] == "ins":
                 # position class of the insertion
                 c = a["c"]
@@ -54,6 +56,32 @@ def tags_of(beh):
             t.add("stage:%s" % a.get("kind"))
         else:
             t.add(k)
+    # line-level ping-pong: a line whose "mod" chain alternates AI -> human -> AI
+    cur = {}
+    chain = {}
+    for a in beh:
+        if a["a"] != "Edit":
+            continue
+        old = cur.get(a["f"], [])
+        new = a["c"]
+        if a["kind"] == "mod":
+            for i, (u, w) in enumerate(new):
+                if i < len(old) and old[i][0] != u:
+                    chain[u] = chain.get(old[i][0], "") + ("A" if a["who"] != "H" else "H")
+        elif a["kind"] in ("ins", "burst"):
+            for u, w in new:
+                if u not in chain and u not in [x[0] for x in old]:
+                    chain[u] = "A" if a["who"] != "H" else "H"
+        cur[a["f"]] = new
+    for u, ch in chain.items():
+        if "AHA" in ch:
+            t.add("pingpong:AHA")
+        elif "HAH" in ch:
+            t.add("pingpong:HAH")
+        elif "AH" in ch:
+            t.add("chain:AH")
+        elif "HA" in ch:
+            t.add("chain:HA")
     sessions = {a["who"] for a in beh if a["a"] == "Edit" and a["who"] != "H"}
     if len(sessions) > 1:
         t.add("two-sessions")
